@@ -150,6 +150,17 @@ MergeTgClauses(e) ==
   IN [ C10_mergeTiers_succeeds |-> AllEachOk(e) => OkE(e),
        C10_mergeTiers_is_union_of_selected |-> (RetTg(e) /\ AllEachOk(e)) => r.tiers = others \o merged ]
 
+(* alignBoundariesAcrossTiers(tg, referenceName, maxDifference) (C14): dejitter applied to every non-reference tier,   *)
+(* the reference tier left alone; e.each[i] = the real dejitter of tier i against the reference (for the reference      *)
+(* tier itself: the tier unchanged); the function works on the textgrid it is given and returns it                      *)
+AlignTgClauses(e) ==
+  LET pre == e.pre  r == e.ret  ref == e.args.ref IN
+  [ C14_align_same_names_same_order |-> RetTg(e) => Names(r) = Names(pre),
+    C14_align_reference_tier_untouched |-> (RetTg(e) /\ HasName(pre, ref) /\ HasName(r, ref)) => TierNamed(r, ref) = TierNamed(pre, ref),
+    C14_align_applies_dejitter_to_every_other_tier |-> (RetTg(e) /\ Len(r.tiers) = Len(e.each)) =>
+        \A i \in Idx(e.each) : e.each[i].st = "ok" => r.tiers[i] = e.each[i].ret,
+    C14_align_fails_only_if_a_dejitter_fails_or_reference_too_dense |-> (AllEachOk(e) /\ ~e.args.dense) => OkE(e) ]
+
 NewTgClauses(e) ==
   [ C13_new_is_equal_copy |-> RetTg(e) /\ e.ret = e.pre,
     C13_new_shares_no_tier_object |-> ~e.alias ]
@@ -174,6 +185,7 @@ TgOpClauses(e) ==
     [] e.op = "appendTg" -> FailsOf(AppendTgClauses(e))
     [] e.op = "mergeTg" -> FailsOf(MergeTgClauses(e))
     [] e.op = "newTg" -> FailsOf(NewTgClauses(e))
+    [] e.op = "alignTg" -> FailsOf(AlignTgClauses(e))
     [] e.op = "saveTg" -> FailsOf(SaveTgClauses(e))
     [] e.op = "validateTg" -> {}
     [] OTHER -> {"UNKNOWN_OP"}
